@@ -208,8 +208,12 @@ def _parent_body(fn, node):
 
 
 # ---------------------------------------------------------------------------
-def _handler_raises(h, exc=None):
-    """the handler's body ends in a raise on every path (optionally of a given class)"""
+def _handler_raises(h, exc=None, fn=None):
+    """the handler's body ends in a raise on every path (optionally of a given class) - directly, or by the "error as a value"
+    idiom: the handler only stores None in a local and the statement right after the try raises when that local is None"""
+    if fn is not None and _sentinel_then_raise(h, exc, fn):
+        return True
+
     def ends(body):
         if not body:
             return False
@@ -226,6 +230,49 @@ def _handler_raises(h, exc=None):
     return ends(h.body)
 
 
+def _sentinel_then_raise(h, exc, fn):
+    if not (len(h.body) == 1 and isinstance(h.body[0], ast.Assign) and len(h.body[0].targets) == 1 and isinstance(h.body[0].targets[0], ast.Name)
+            and isinstance(h.body[0].value, ast.Constant) and h.body[0].value.value is None):
+        return False
+    v = h.body[0].targets[0].id
+    for parent in ast.walk(fn):
+        for fld in ("body", "orelse", "finalbody"):
+            blk = getattr(parent, fld, None)
+            if not isinstance(blk, list):
+                continue
+            for i, st in enumerate(blk):
+                if isinstance(st, ast.Try) and h in st.handlers and not st.finalbody and not st.orelse and i + 1 < len(blk):
+                    # the protected statements must not be able to leave None in v themselves
+                    sets = [x.value for b in st.body for x in ast.walk(b) if isinstance(x, ast.Assign) and any(isinstance(t, ast.Name) and t.id == v for t in x.targets)]
+                    if any(isinstance(x, ast.Constant) or isinstance(x, ast.Name) for x in sets):
+                        return False
+                    nxt = blk[i + 1]
+                    if not isinstance(nxt, ast.If):
+                        return False
+                    t = nxt.test
+                    alias = {v}
+                    for w in ast.walk(t):
+                        if isinstance(w, ast.NamedExpr) and isinstance(w.value, ast.Name) and w.value.id == v:
+                            alias.add(w.target.id)
+                    hit = False
+                    from ..canon import conjuncts, strip_walrus
+
+                    for c in conjuncts(strip_walrus(t)) if len(conjuncts(strip_walrus(t))) == 1 else []:
+                        if isinstance(c, ast.Compare) and len(c.ops) == 1 and isinstance(c.ops[0], ast.Is) and norm(c.comparators[0]) == "None" and norm(c.left) in alias:
+                            hit = True
+                    if not hit:
+                        return False
+                    last = nxt.body[-1] if nxt.body else None
+                    if not isinstance(last, ast.Raise):
+                        return False
+                    if exc is None or last.exc is None:
+                        return True
+                    e = last.exc
+                    nm = call_name(e) if isinstance(e, ast.Call) else (e.id if isinstance(e, ast.Name) else None)
+                    return nm == exc
+    return False
+
+
 def r3_xyz_errors(chk, rx):
     reads = []
     for s in walk_no_nested(rx.node):
@@ -240,7 +287,7 @@ def r3_xyz_errors(chk, rx):
             # an unprotected parse step raises the raw exception - still an exception
             chk.ok("C10.R3", key, rx.where(s), "unprotected: the raw exception propagates", trivial=True)
             continue
-        ok = all(_handler_raises(h, "XYZSyntaxError") for t in enclosing for h in t.handlers) and all(not t.finalbody or not any(contains_yield(x) for x in t.finalbody) for t in enclosing)
+        ok = all(_handler_raises(h, "XYZSyntaxError", rx.node) for t in enclosing for h in t.handlers) and all(not t.finalbody or not any(contains_yield(x) for x in t.finalbody) for t in enclosing)
         chk.decide(ok, "C10.R3", key, rx.where(s), "every handler re-raises XYZSyntaxError",
                    "a handler around this parse step does not raise XYZSyntaxError: a damaged line is swallowed and the block is yielded anyway")
     ys = [s for s in walk_no_nested(rx.node) if isinstance(s, ast.Expr) and contains_yield(s)]
@@ -261,7 +308,7 @@ def r4_no_swallow(chk, funcs):
             chk.ok("C10.R4", f"{f.key}:handlers", f.where(), "no except handlers", trivial=True)
             continue
         for h in hs:
-            chk.decide(_handler_raises(h), "C10.R4", f"{f.key}:handler:{norm(h.type) if h.type else 'bare'}", f.where(h),
+            chk.decide(_handler_raises(h, None, f.node), "C10.R4", f"{f.key}:handler:{norm(h.type) if h.type else 'bare'}", f.where(h),
                        "handler ends in raise", f"`except {norm(h.type) if h.type else ''}:` in {f.qualname} can complete without raising: a parse error is swallowed")
 
 
